@@ -96,6 +96,19 @@ class TableWorld:
         return r
 
 
+class OpaqueWorld:
+    """Every joint term is an arbitrary positive rational determined by the *set* of its (variable, world, value) items
+    and its population: any structural change other than reordering changes the value (used for print/parse)."""
+
+    def __init__(self, salt=0):
+        self.salt = salt
+        self.card = CARD
+
+    def joint(self, pop, items):
+        key = sorted((n, tuple(sorted(w)), v) for n, w, v in items)
+        return Fr(1 + h("opaque", self.salt, pop, key) % 89, 97)
+
+
 def all_envs(linked: bool, plus: bool):
     """Environments over A, B, C.
 
@@ -292,6 +305,33 @@ def atoms(alpha, family="calc"):
                 PopulationProbability(population=PI1, distribution=Distribution(children=(A,), parents=(B,))),
             ]
         return base
+    if family == "print":
+        from y0.dsl import Q
+
+        base = [
+            P(A),
+            P(A | B),
+            P(A, B | C),
+            P[C](A),
+            P(+A),
+            P(-A | +B),
+            PopulationProbability(population=PI1, distribution=Distribution(children=(A,))),
+            Q[A](B),
+            One(),
+            Zero(),
+        ]
+        if tier == "thorough":
+            base += [
+                P(B, C),
+                P[+C](A | B),
+                P[C, +B](A),
+                P((+A) @ C),
+                P((-A) @ (+C), B @ (+C)),
+                P(A @ B, C),
+                PopulationProbability(population=PI1, distribution=Distribution(children=(A,), parents=(B,))).intervene(C),
+                Q[A, B](C),
+            ]
+        return base
     raise ValueError(family)
 
 
@@ -299,7 +339,7 @@ RANGES = [tuple(c) for r in (1, 2, 3) for c in itt.combinations((A, B, C), r)]
 ORDERINGS = [tuple(p) for p in itt.permutations((A, B, C))]
 
 
-def menu(e, atom_list, tier, with_raw=True):
+def menu(e, atom_list, tier, with_raw=True, public_only=False):
     """Yield (opname, args_repr, thunk, ref) for every operation applicable to expression e.
 
     ``ref`` describes the reference semantics: ("id",) value-preserving rewrite of e; ("mul", b) etc.
@@ -318,6 +358,8 @@ def menu(e, atom_list, tier, with_raw=True):
         yield "sum", f"Sum[{rn}](e)", (lambda r=r: Sum[r](e)), ("sum", r)
         yield "marginalize", f"e.marginalize({rn})", (lambda r=r: e.marginalize(r)), ("sum", r)
         yield "conditional", f"e.conditional({rn})", (lambda r=r: e.conditional(r)), ("cond", r)
+    if public_only:
+        return
     if isinstance(e, Fraction):
         yield "fraction_simplify", "e.simplify()", (lambda: e.simplify()), ("id",)
         yield "contract", "contract(e)", (lambda: contract(e)), ("id",)
@@ -398,19 +440,19 @@ def level(alpha, depth, family="calc"):
     tier = "thorough" if alpha == "a24" else "quick"
     states = {}
     for i, a in enumerate(al):
-        s = State(a, [f"atom{i}={a}"])
+        s = State(a, [f"atom{i}={a}"], linked=(family != "print"))
         states.setdefault(s.key, s)
     frontier = list(states)
     for _ in range(depth):
         nxt = []
         for k in frontier:
             st = states[k]
-            for op, desc, thunk, ref in menu(st.expr, al, tier):
+            for op, desc, thunk, ref in menu(st.expr, al, tier, public_only=(family == "print")):
                 try:
                     r = thunk()
                 except Exception:  # noqa  (exceptions are judged when this state is explored as a source)
                     continue
-                s = State(r, st.hist + [desc])
+                s = State(r, st.hist + [desc], linked=(family != "print"))
                 if s.key not in states:
                     states[s.key] = s
                     nxt.append(s.key)
@@ -418,10 +460,10 @@ def level(alpha, depth, family="calc"):
     return al, list(states.values())
 
 
-def plan_shards(tier, size):
+def plan_shards(tier, size, family="calc", plans=None):
     out = []
-    for alpha, depth in PLANS[tier]:
-        _, sts = level(alpha, depth)
+    for alpha, depth in (plans or PLANS)[tier]:
+        _, sts = level(alpha, depth, family)
         out += [(alpha, depth, i, min(i + size, len(sts))) for i in range(0, len(sts), size)]
     return out
 
@@ -443,11 +485,15 @@ class Explorer:
         self.atom_list, self.l1 = level(alpha, depth, family)
         self.atom_states = {}
         for i, a in enumerate(self.atom_list):
-            s = State(a, [f"atom{i}={a}"])
+            s = State(a, [f"atom{i}={a}"], linked=(family != "print"))
             self.atom_states.setdefault(s.key, s)
-        self.worlds = [TableWorld(salt=f"w{seed}")] + ([TableWorld(salt=f"x{seed}")] if tier == "thorough" else [])
-        plus = any("+" in str(a) for a in self.atom_list)
-        self.envs = all_envs(linked=True, plus=plus)
+        if family == "print":
+            self.worlds = [OpaqueWorld(salt=f"o{seed}")]
+            self.envs = all_envs(linked=False, plus=True)
+        else:
+            self.worlds = [TableWorld(salt=f"w{seed}")] + ([TableWorld(salt=f"x{seed}")] if tier == "thorough" else [])
+            plus = any("+" in str(a) for a in self.atom_list)
+            self.envs = all_envs(linked=True, plus=plus)
 
     def envs_for(self, *free_sets):
         free = set().union(*free_sets) if free_sets else set()
@@ -460,7 +506,7 @@ class Explorer:
                 seen.add(st.key)
                 res.keyset.add(h64(st.key))
                 on_state(self, res, st)
-            for op, desc, thunk, ref in menu(st.expr, self.atom_list, self.tier):
+            for op, desc, thunk, ref in menu(st.expr, self.atom_list, self.tier, public_only=(self.family == "print")):
                 res.transitions += 1
                 try:
                     r = thunk()
@@ -469,7 +515,7 @@ class Explorer:
                     r, exc = None, e
                 rs = None
                 if r is not None:
-                    rs = State(r, st.hist + [desc])
+                    rs = State(r, st.hist + [desc], linked=(self.family != "print"))
                 if on_transition:
                     on_transition(self, res, st, op, desc, ref, rs, exc)
                 if rs is not None and on_state and rs.key not in seen:
@@ -491,11 +537,12 @@ def rebuild(hist, alpha, family="calc"):
     tier = "thorough" if alpha == "a24" else "quick"
     first = hist[0]
     idx = int(first.split("=")[0][4:])
-    st = State(al[idx], [first])
+    linked = family != "print"
+    st = State(al[idx], [first], linked=linked)
     for desc in hist[1:]:
-        for op, d, thunk, ref in menu(st.expr, al, tier):
+        for op, d, thunk, ref in menu(st.expr, al, tier, public_only=(family == "print")):
             if d == desc:
-                st = State(thunk(), st.hist + [desc])
+                st = State(thunk(), st.hist + [desc], linked=linked)
                 break
         else:
             raise KeyError(f"operation {desc!r} is not applicable while replaying")
